@@ -12,7 +12,7 @@ SAN = ["-fsanitize=address,undefined", "-fno-sanitize=alignment", "-fno-sanitize
 COMMON = ["-O1", "-g", "-D_GNU_SOURCE", "-DHAVE_CONFIG_H", "-include", os.path.join(CFG, "config.h"), "-I" + CFG,
           "-I" + os.path.join(REPO, "include"), "-I" + os.path.join(REPO, "src"), "-w"]
 # hooks: small-table access to the partitioned resize and the counter-driven lazy resize (C09)
-TUNE = ["-DURCU_VERIF", "-DURCU_VERIF_MIN_PARTITION_PER_THREAD_ORDER=5", "-DURCU_VERIF_COUNT_COMMIT_ORDER=2"]
+TUNE = ["-DURCU_VERIF", "-DURCU_VERIF_MIN_PARTITION_PER_THREAD_ORDER=4", "-DURCU_VERIF_COUNT_COMMIT_ORDER=2"]
 LIBSRC = [("urcu.c", ["-DRCU_MB"]), ("urcu-pointer.c", []), ("wfcqueue.c", []), ("wfstack.c", []), ("compat_arch.c", []),
           ("compat_futex.c", []), ("workqueue.c", []), ("rculfhash.c", []), ("rculfhash-mm-order.c", []), ("rculfhash-mm-chunk.c", []),
           ("rculfhash-mm-mmap.c", [])]
@@ -69,7 +69,7 @@ def build(name):
         for rc, cmd, o in bad:
             sys.stderr.write("BUILD FAILED: %s\n%s\n" % (" ".join(cmd), o[-3000:]))
         shutil.rmtree(tmp, ignore_errors=True); raise SystemExit(3)
-    rc, cmd, o = run(["clang++", "-fsanitize=fuzzer"] + SAN + sorted(glob.glob(os.path.join(tmp, "*.o"))) + ["-o", os.path.join(tmp, name), "-pthread"])
+    rc, cmd, o = run(["clang++", "-fsanitize=fuzzer"] + SAN + sorted(glob.glob(os.path.join(tmp, "*.o"))) + ["-o", os.path.join(tmp, name), "-pthread"] + (["-Wl,--wrap=open"] if t.get("lib") else []))
     if rc:
         sys.stderr.write("LINK FAILED: %s\n%s\n" % (" ".join(cmd), o[-3000:])); shutil.rmtree(tmp, ignore_errors=True); raise SystemExit(3)
     for f in glob.glob(os.path.join(tmp, "*.o")):
